@@ -17,6 +17,8 @@ Notation zgate := (gate Z zbin zbin_ok Z.ltb Z.leb zof_bool).
 Notation zholds := (holds Z zbin zbin_ok Z.ltb Z.leb zof_bool).
 Notation zstatus := (status Z zbin zbin_ok Z.ltb Z.leb zof_bool).
 Notation zchain := (chain Z Z.ltb Z.leb).
+Notation zchain_legacy := (chain_legacy Z Z.ltb Z.leb).
+Notation zdenote := (denote Z Z.ltb Z.leb).
 
 Definition g2 : node Z := NModel "G2" ["a"; "b"] [("a", NPrior 0); ("b", NPrior 1)].
 Definition ex : node Z := NColl [("g", g2); ("h", NModel "G2" ["a"; "b"] [("a", NBin OAdd "p" "q" (NPrior 1) (NPrior 2)); ("b", NConst 4%Z)])].
@@ -76,36 +78,45 @@ Example reflected_constant_left : cmp_nodes Z Z.ltb Z.leb CLt (NConst 5%Z) (NPri
 Proof. reflexivity. Qed.
 Example greater_swaps : cmp_nodes Z Z.ltb Z.leb CGe (NPrior 0) (NPrior 1) = Some (ALe (NPrior 1) (NPrior 0)).
 Proof. reflexivity. Qed.
-Example chain_lt_exists : zchain a01 CLt (NConst 9%Z) = Some (AAnd a01 (ALt (NPrior 1) (NConst 9%Z))).
+Example chain_lt_exists : zchain a01 (NPrior 0, NPrior 1) CLt (NConst 9%Z) =
+  Some (AAnd a01 (ALt (NPrior 1) (NConst 9%Z)), (NPrior 0, NConst 9%Z)).
 Proof. reflexivity. Qed.
-Example chain_gt_exists : zchain a01 CGt (NPrior 2) = Some (AAnd a01 (ALt (NPrior 2) (NPrior 0))).
+Example chain_gt_exists : zchain a01 (NPrior 0, NPrior 1) CGt (NPrior 2) =
+  Some (AAnd a01 (ALt (NPrior 2) (NPrior 0)), (NPrior 2, NPrior 1)).
 Proof. reflexivity. Qed.
-Example chain2_pivot : pivot_of Z a01 CGt = Some (NPrior 0) /\ pivot_of Z a01 CLe = Some (NPrior 1).
-Proof. split; reflexivity. Qed.
 
 (* ---------- REFUTED: the unguarded statements are false of the code ---------- *)
 Definition flat3 : node Z := NModel "G3" ["x"; "y"; "z"] [("x", NPrior 0); ("y", NPrior 1); ("z", NPrior 2)].
 Definition two_links : assertion Z := AAnd a01 (ALt (NPrior 1) (NPrior 2)).       (* (x < y) < z *)
 
-(* three links: ((x < y) < z) < z is built as "truth value of the two-link chain < z"; the vector [3; 2; 5]
-   violates x < y and is accepted (known finding chain-3-links) *)
-Example C03_chain3_refuted :
+(* three links (the code since 33cdc7f): ((x < y) < z) < z is the three inequalities; the vector [3; 2; 5]
+   violates x < y and is rejected; a constant as last operand is fine too *)
+Definition three_written : recipe Z := RChain (RChain (RCmp CLt (NPrior 0) (NPrior 1)) CLt (NPrior 2)) CLt (NPrior 2).
+Example chain3_guard : rguard Z three_written = true.
+Proof. reflexivity. Qed.
+Example chain3_rejected :
+  zdenote three_written = Some (AAnd two_links (ALt (NPrior 2) (NPrior 2)), Some (NPrior 0, NPrior 2)) /\
+  zrun false ex_lims [([], [AAnd two_links (ALt (NPrior 2) (NPrior 2))])] flat3 [3; 2; 5]%Z = VAssert.
+Proof. vm_compute. auto. Qed.
+Example chain3_constant_last :
+  zdenote (RChain (RChain (RCmp CLt (NPrior 0) (NPrior 1)) CLt (NPrior 2)) CLe (NConst 9%Z)) =
+    Some (AAnd two_links (ALe (NPrior 2) (NConst 9%Z)), Some (NPrior 0, NConst 9%Z)).
+Proof. reflexivity. Qed.
+Example chain3_mixed_directions :      (* ((x < y) > z) <= 9 :  z < x < y <= 9 *)
+  zdenote (RChain (RChain (RCmp CLt (NPrior 0) (NPrior 1)) CGt (NPrior 2)) CLe (NConst 9%Z)) =
+    Some (AAnd (AAnd a01 (ALt (NPrior 2) (NPrior 0))) (ALe (NPrior 1) (NConst 9%Z)), Some (NPrior 2, NConst 9%Z)).
+Proof. reflexivity. Qed.
+
+(* HISTORY (finding chain-3-links, repaired by 33cdc7f): the legacy operators built "truth value of the
+   two-link chain < z", and the vector [3; 2; 5], which violates x < y, was accepted *)
+Example C03_chain3_legacy_refuted :
   exists (t : assertion Z) (vec : list Z),
-    zchain two_links CLt (NPrior 2) = Some t /\
+    zchain_legacy two_links CLt (NPrior 2) = Some t /\
     zholds (vec_args Z flat3 vec) two_links = Ok false /\
     zholds (vec_args Z flat3 vec) t = Ok true /\
     zrun false ex_lims [([], [t])] flat3 vec = VOk (IObj "G3" [("x", IV 3%Z); ("y", IV 2%Z); ("z", IV 5%Z)]).
 Proof. exists (ALowB true two_links (NPrior 2)), [3; 2; 5]%Z. vm_compute. auto. Qed.
-
-(* the prepared variant (proposed_fixes/C03-chain-further) builds the three inequalities and rejects that vector *)
-Example chain3_fixed_variant :
-  option_map fst (denote_fixed Z Z.ltb Z.leb (RChain (RChain (RCmp CLt (NPrior 0) (NPrior 1)) CLt (NPrior 2)) CLt (NPrior 2)))
-    = Some (AAnd two_links (ALt (NPrior 2) (NPrior 2))) /\
-  zrun false ex_lims [([], [AAnd two_links (ALt (NPrior 2) (NPrior 2))])] flat3 [3; 2; 5]%Z = VAssert.
-Proof. vm_compute. auto. Qed.
-
-(* ... and with a constant as last operand Python raises TypeError when the chain is written *)
-Example C03_chain3_constant_unsupported : zchain two_links CLt (NConst 9%Z) = None.
+Example C03_chain3_constant_legacy_unsupported : zchain_legacy two_links CLt (NConst 9%Z) = None.
 Proof. reflexivity. Qed.
 
 (* an operand that is not a parameter of the model: KeyError, not the fit exception (guard ldef) *)
